@@ -9,6 +9,14 @@ import (
 	"verif/vp"
 )
 
+// The processor's own bit assignment in P / in a REP/SEP operand (WDC datasheet): m = $20, x = $10.
+// The harnesses use these, not the library's named constants, so that a library whose names are
+// attached to the wrong bits cannot agree with itself.
+const (
+	FlagM asm.Flags = 0x20
+	FlagX asm.Flags = 0x10
+)
+
 const (
 	GuardNone = iota
 	GuardM8   // method requires the tracked accumulator width to be 8 bit
@@ -76,13 +84,13 @@ func New() *H {
 func expectRefusal(guard int, f asm.Flags) bool {
 	switch guard {
 	case GuardM8:
-		return f&asm.Accumulator8bit == 0
+		return f&FlagM == 0
 	case GuardM16:
-		return f&asm.Accumulator8bit != 0
+		return f&FlagM != 0
 	case GuardX8:
-		return f&asm.IndexRegister8bit == 0
+		return f&FlagX == 0
 	case GuardX16:
-		return f&asm.IndexRegister8bit != 0
+		return f&FlagX != 0
 	}
 	return false
 }
@@ -143,7 +151,7 @@ func (h *H) Check(refused bool, s Spec) {
 	// independent decoder: the opcode matrix gives the same length back under the widths the
 	// emitter tracks after the call (REP/SEP change them, which does not affect their own length)
 	f := h.flags0
-	m8, x8 := f&asm.Accumulator8bit != 0, f&asm.IndexRegister8bit != 0
+	m8, x8 := f&FlagM != 0, f&FlagX != 0
 	vp.Assert("decoder-length-agrees", w65816.Len(s.Opcode, m8, x8) == L)
 	want := h.flags0
 	switch s.Tracks {
